@@ -186,6 +186,20 @@ def oracle(ctx, only=None):
                     continue
                 ctx.cov['evaluations'] += n
                 ctx.count(('gdual', label, kind, mesh.p.tolist()), nontrivial=(kind != 'ref'))
+                if kind == 'affine':
+                    # one element object, two meshes of equal size and cell subsets, in sequence
+                    other = c09_oracle.random_mesh(rd, rng, 'affine')
+                    try:
+                        with warnings.catch_warnings():
+                            warnings.simplefilter('ignore')
+                            n, w = c09_oracle.check_global_reuse(label, f, [mesh, other] if (label == 'ElementHexC1' and ctx.quick()) else [mesh, other, mesh], ctx.fail, rng)
+                        ctx.cov['evaluations'] += n
+                        ctx.count(('gdual-reuse', label, mesh.p.tolist(), other.p.tolist()), nontrivial=True)
+                        ctx.extra['max_global_functional_duality_deviation'] = max(ctx.extra.get('max_global_functional_duality_deviation', 0.0), w)
+                    except Exception as ex:  # noqa
+                        import traceback
+                        ctx.fail(f'elem={label}:functional-duality-reuse-exception', f'{label}: {type(ex).__name__}: {ex}',
+                                 {'element': label, 'traceback': traceback.format_exc()[-1200:]})
                 ctx.extra['max_global_functional_duality_deviation'] = max(ctx.extra.get('max_global_functional_duality_deviation', 0.0), w)
         try:
             oracle_reference(ctx, label, f)
